@@ -95,10 +95,64 @@ def run(res, f, tier):
     # ---- token-level templates:  elements ('tok', name) | ('hole', field index, kind)
     ttempl = {}
     join_sep = {}
+    def looped_collection(vname, ts, kinds):
+        """a list / map node printed by a loop over its items: the unrolled paths (0, 1, 2 items) give prefix, item
+        shape, separator and suffix -> the same template a `join` gives"""
+        if not any(k in ("list", "map") for k in kinds) or len(ts) < 3:
+            return None
+        idx = [i for i, k in enumerate(kinds) if k in ("list", "map")][0]
+        kind = kinds[idx]
+        by_k = {}
+        for t_ in ts:
+            shape = []
+            for e in t_:
+                if e[0] == "lit":
+                    shape.append(("lit", e[1]))
+                else:
+                    term = show(norm(e[1]))
+                    m_ = re.fullmatch(r"elem(\d+)\(.*self\.%s\.%d.*?\)(\.[01])?" % (vname, idx), term)
+                    if not m_:
+                        return None
+                    shape.append(("item", int(m_.group(1)), m_.group(2) or ""))
+            k_ = len(set(x[1] for x in shape if x[0] == "item"))
+            by_k.setdefault(k_, shape)
+        if not all(k_ in by_k for k_ in (0, 1, 2)):
+            return None
+        s0, s1, s2 = by_k[0], by_k[1], by_k[2]
+        if [x[0] for x in s0] != ["lit"] or s1[0][0] != "lit" or s1[-1][0] != "lit":
+            return None
+        pre, suf = s1[0][1], s1[-1][1]
+        item1 = s1[1:-1]
+        if s0[0][1] != pre + suf:
+            return None
+        n = len(item1)
+        # two items: pre, item(0), sep, item(1), suf
+        if len(s2) != 2 * n + 3 or s2[0] != ("lit", pre) or s2[-1] != ("lit", suf) or s2[n + 1][0] != "lit":
+            return None
+        ren = lambda it_, j: [(x if x[0] == "lit" else ("item", j, x[2])) for x in it_]
+        if s2[1:n + 1] != ren(item1, 0) or s2[n + 2:-1] != ren(item1, 1):
+            return None
+        sep = s2[n + 1][1]
+        els_ = [("tok", t) for t in lex_piece(pre)] + [("text", pre)] if pre else []
+        if kind == "list":
+            if item1 != [("item", 0, "")]:
+                return None
+            els_.append(("hole", idx, "list", sep))
+        else:
+            shp = tuple((x[1] if x[0] == "lit" else ("{key}" if x[2] == ".0" else "{value}")) for x in item1)
+            els_.append(("hole", idx, "map", sep, shp))
+        if suf:
+            els_ += [("tok", t) for t in lex_piece(suf)] + [("text", suf)]
+        return els_
+
     for vname, ts in disp[EXPR].items():
-        if len(ts) != 1:
-            raise Inconclusive("Display arm of Expr::%s has %d paths" % (vname, len(ts)))
         kinds = field_kinds(f, variants[vname])
+        if len(ts) != 1:
+            lc = looped_collection(vname, ts, kinds)
+            if lc is None:
+                raise Inconclusive("Display arm of Expr::%s has %d paths" % (vname, len(ts)))
+            ttempl[vname] = lc
+            continue
         els = []
         for e in ts[0]:
             if e[0] == "lit":
